@@ -274,7 +274,10 @@ LEVEL_TEXT = ('Coq theorems over an executable step-machine model of DiscoveryAg
               'true and exactly the connected set; c11_incremental - an incremental discovery returns exactly the '
               'now-connected set; c11_complete_wired(_or) - the same WITHOUT assuming that a collision fails validation: '
               'whatever non-empty bytes the line carries when several responders answer (e.g. the byte-wise OR, which can '
-              'be a valid frame of a phantom UID), the result is exactly the connected set; c11_bounded_tx - both within 4 + (previously known UIDs) + 98*|S| transactions; '
+              'be a valid frame of a phantom UID), the result is exactly the connected set; c11_incremental_wired / c11_incremental_leave - incremental runs on the wired-OR line (kept + new; any '
+              'set of known responders leaving, incl. the highest, 0000:00000000, all); c11_run_stateless_strong - a run '
+              'depends only on m_uids at its start and on the replies (m_muting_uid / m_mute_attempts are dead); '
+              'c11_bounded_tx - both within 4 + (previously known UIDs) + 98*|S| transactions; '
               'c11_late_reply - a reply delivered after Abort() changes nothing (code with fixes/03); c11_destroy - '
               'destroying the agent mid-run completes the run once with false. c11_complete/c11_incremental/c11_bounded_tx keep the explicit hypothesis that a collision does not '
               'decode as a valid reply. The pre-fix code is refuted by two machine-checked witnesses (bounded). Model tied to the '
